@@ -7,7 +7,7 @@ from . import common
 from .common import rule_atomic
 from .tierops import tier_table
 
-MODES = [(m, r) for m in ("error", "replace", "merge") for r in ("silence", "warning", "error")]
+MODES = [(m, r) for m in ("error", "replace", "merge") for r in ("silence", "warning", "error")] + [("cats", "silence"), ("replace", "cats")]  # the last two: invalid options must be rejected before anything changes
 
 
 def new_interval(at, ents):
@@ -55,4 +55,4 @@ def run(rep, tier):
 
             tier_table(rep, "T8-deleteEntry-" + kind, "deleteEntry", kind, k, new_interval if kind == "interval" else new_point,
                        list(range(k)) + ["absent"], call, spec, "%d generic entries" % k, as_atoms=True)
-    rule_atomic(rep, ["IntervalTier.insertEntry", "IntervalTier.deleteEntry", "PointTier.insertEntry", "PointTier.deleteEntry"])
+    rule_atomic(rep, ["IntervalTier.insertEntry", "IntervalTier.deleteEntry", "PointTier.insertEntry", "PointTier.deleteEntry"], semantic=True)
